@@ -191,6 +191,7 @@ async def _scenario(loop, sim, hosts, events, seed):
             n_att = 0
             n_open = 0
             seen_shutdown = False
+            quiet = False  # the pairing was closed and nothing has asked for a connection since
             last_attempt = None
             harness_cancelled = set()
             groups = []  # (timestamp, set of targeted addresses) while one connector keeps retrying
@@ -312,8 +313,15 @@ async def _scenario(loop, sim, hosts, events, seed):
                 if close_raised:
                     problems.append(("close-raised", f"{'shutdown' if k == 'X' else 'close'}() raised {close_raised[0]}"))
                     del close_raised[:]
+                if k in ("x", "X"):
+                    quiet = True
+                elif k in ("e", "s", "d") and not seen_shutdown:
+                    quiet = False
                 if k in ("x", "X") and op:
                     problems.append(("open-after-close", f"after {ev}: connection(s) {op} still open"))
+                elif quiet and (op or new):
+                    what = f"connection(s) {op} open" if op else f"connection attempt(s) {new}"
+                    problems.append(("open-after-close", f"after {ev}: {what} although the pairing was {'shut down' if seen_shutdown else 'closed'} and nothing has asked for a connection since"))
                 if seen_shutdown and new:
                     problems.append(("attempt-after-shutdown", f"after {ev}: connection attempt(s) {new} after shutdown()"))
                 for i, o, t, t0 in fin:
